@@ -29,6 +29,8 @@ type tcpHandler struct {
 
 	pool  *gpool.Pool
 	conns sync.Map
+	// connWG counts the connection goroutines started by Handle
+	connWG sync.WaitGroup
 }
 
 type connInfo struct {
@@ -126,7 +128,9 @@ func (t *tcpHandler) Handle() error {
 			continue
 		}
 		atomic.AddInt32(&t.server.numConn, 1)
+		t.connWG.Add(1)
 		go func(conn net.Conn) {
+			defer t.connWG.Done()
 			key := conn.RemoteAddr().String()
 			switch c := conn.(type) {
 			case *net.TCPConn:
@@ -144,6 +148,10 @@ func (t *tcpHandler) Handle() error {
 		}(conn)
 	}
 	if t.pool != nil {
+		// Connections keep reading and dispatching requests until they have drained. Releasing the
+		// pool before that would drop the handlers that are still queued (and block the receivers
+		// that submit new ones), so wait for every connection goroutine first.
+		t.connWG.Wait()
 		t.pool.Release()
 	}
 	return nil
